@@ -171,9 +171,9 @@ def gen_project(dim):
     b_sub = place == 1
     EAS = ['plain', 'a\\b', 'keep@INPUT@', '@BUILD_DIR@/y', '@OUTPUT0@']      # extra_args of generator.process(): passed on verbatim - no template substitution, no backslash normalisation
     ea = EAS[choose(len(EAS), 'generator extra_args')] if (vary_in and in_b == 4) else 'plain'
-    extra = choose(7, 'alias / run target') if vary_co else 0        # alias_target() takes whole targets only
+    extra = choose(9, 'alias / run target') if vary_co else 0        # alias_target() takes whole targets only; 7: an alias of an alias, 8: an alias of a run target
     tst = choose(11, 'test') if vary_co else 1
-    flat = (choose(2, 'layout') == 1) if (vary_in and place != 0 and in_b in (0, 1)) else False        # --layout=flat: every target output under meson-out/ (plus build_subdir)
+    flat = (choose(2, 'layout') == 1) if ((vary_in and place != 0 and in_b in (0, 1)) or (vary_co and extra in (7, 8))) else False        # --layout=flat: every target output under meson-out/ (plus build_subdir)
     pr.flat = flat
     bdir = ('sub/' if b_sub else ('deep/' if place == 2 else '')) if not flat else ('meson-out/deep/' if place == 2 else 'meson-out/')
     odir = 'meson-out/' if flat else ''
@@ -185,17 +185,21 @@ def gen_project(dim):
     bl = "B = custom_target('B', %soutput : 'b.txt', command : %s, %s'@OUTPUT0@'], build_by_default : BB%s%s)" % (
         ('input : %s, ' % inb_expr) if inb_expr else '', PYCMD, "'@INPUT@', " if inb_expr else '', ", depends : A, depend_files : files('%sin.txt')" % ('../' if b_sub else '') if in_b == 6 else '',
         ", build_subdir : 'deep'" if place == 2 else '')
-    files = {'in.txt': '', 'dep.txt': ''}
+    files = {'in.txt': '', 'dep.txt': '', 'd/one.dat': '', 'two.dat': ''}
+    PS['PP'] = sym_bool('install_data.preserve_path') if (vary_in and in_b == 0) else True
+    L.append("install_data('d/one.dat', 'two.dat', preserve_path : PP, install_dir : 'share/kept')")
     if b_sub:
         L.append("subdir('sub')"); files['sub/meson.build'] = bl + '\n'
     else:
         L.append(bl)
     inc_expr = ['B', 'A[0]', "'in.txt'", '[B, A]', "'in.txt'"][in_c]
     L.append("C = custom_target('C', input : %s, output : ['c1.txt', 'c2.txt'], command : %s, %s'@INPUT@', '@OUTPUT@'], build_always_stale : SC, install : IC, install_dir : ['share', false])" % (inc_expr, PYCMD, 'A[IA], ' if in_c == 4 else ''))
-    X = [None, 'A', 'C', 'B', 'C', 'A[IA]', 'A'][extra]
+    X = [None, 'A', 'C', 'B', 'C', 'A[IA]', 'A', 'C', 'B'][extra]
     if extra in (1, 2, 3): L.append("alias_target('al', %s)" % X)
     elif extra in (4, 5): L.append("run_target('rt', command : %s, %s])" % (PYCMD, X))
     elif extra == 6: L.append("run_target('rt', command : %s], depends : %s)" % (PYCMD, X))
+    elif extra == 7: L.append("al = alias_target('al', %s)" % X); L.append("alias_target('al2', al)")
+    elif extra == 8: L.append("rt = run_target('rt', command : %s], depends : %s)" % (PYCMD, X)); L.append("alias_target('al2', rt)")
     TX = [None, 'B', 'A[IA]', 'C[1]', 'B', 'A[IA]', 'C', 'A[IA]', 'C[0]', 'B', 'A[IA]'][tst]
     kind = 'benchmark' if tst >= 9 else 'test'
     if tst in (1, 2, 3, 9, 10): L.append("%s('t', py, args : ['-c', 'pass', %s])" % (kind, TX))
@@ -216,9 +220,11 @@ def gen_project(dim):
     pr.b_extra_deps = [a_outs[0], '../src/in.txt'] if in_b == 6 else []
     pr.default = [t for t, f in (('A', PS['BA']), ('B', PS['BB'])) if decide(bt_any(f))]
     pr.installed_c = decide(bt_any(PS['IC']))
+    pr.preserve = decide(bt_any(PS['PP']))
     if pr.installed_c: pr.default.append('C')        # an installed custom target is built by default
-    pr.alias = (target_of(X) if extra in (1, 2, 3) else None)
-    pr.run_needs = (target_of(X) if extra in (4, 5, 6) else None)
+    pr.alias = (target_of(X) if extra in (1, 2, 3, 7) else None)
+    pr.run_needs = (target_of(X) if extra in (4, 5, 6, 8) else None)
+    pr.alias2 = target_of(X) if extra in (7, 8) else None
     pr.test_needs = target_of(TX) if tst < 9 else None
     pr.bench_needs = target_of(TX) if tst >= 9 else None
     pr.tst, pr.extra, pr.in_b, pr.in_c, pr.ia, pr.ea = tst, extra, in_b, in_c, ia, ea
